@@ -431,6 +431,17 @@ func main() {
 		if i >= n {
 			out.Count("large-files")
 		}
+		if len(c.Obs) > 0 {
+			sw := 0
+			for j := 1; j < len(c.Obs[0].Order); j++ {
+				if c.Obs[0].Order[j][0] != c.Obs[0].Order[j-1][0] {
+					sw++
+				}
+			}
+			if sw >= nonempty && nonempty >= 2 {
+				out.Count("files-really-interleaved")
+			}
+		}
 	}
 	out.Extra["runs_that_did_not_return"] = hung
 	out.Flush("1-3 generated programs (1-4 rules '$tag == t { hits++ | sum += v | last = v }' plus a per-line log) x 1-3 generated files (0-24 lines, a few with 150-400; junk and empty lines, empty files, unterminated last line), through mtail.New(OneShot)+Run with a 15 s deadline under GOMAXPROCS 1/2/16; goroutine scheduling is whatever the Go runtime does (sampled); a case is non-trivial when at least two files are non-empty and there are >= 4 lines", false)
